@@ -117,8 +117,8 @@ def random_f64_traces(ctx, exe):
         return rnd.choice([1.0, -1.0]) * rnd.random() * 10 ** rnd.randint(-3, 3)
     jobs, raw = [], []
     for i in range(n):
-        nb = rnd.randint(1, 5)
-        if rnd.random() < 0.7:
+        nb = rnd.randint(1, 5) if rnd.random() < 0.9 else rnd.randint(40, 300)        # sometimes a long bucket list
+        if rnd.random() < 0.7 or nb > 5:
             bs = sorted(set(x for x in (rf() for _ in range(nb)) if x == x))
             if rnd.random() < 0.2 and bs:
                 bs.append(float("inf"))
@@ -130,6 +130,9 @@ def random_f64_traces(ctx, exe):
         obs = [rnd.choice(pool) if rnd.random() < 0.5 else rf() for _ in range(rnd.randint(0, 8))]
         # nextafter neighbours of bounds are the interesting observations
         obs += [math.nextafter(b, math.inf) for b in bs[:1] if b == b and abs(b) != math.inf] + [math.nextafter(b, -math.inf) for b in bs[-1:] if b == b and abs(b) != math.inf]
+        if nb > 5:
+            mid = [b for b in rnd.sample(bs, min(6, len(bs))) if b == b and abs(b) != math.inf]
+            obs += mid + [math.nextafter(b, math.inf) for b in mid[:3]] + [float("nan")]
         variant = ["histogram", "vec_child", "local", "mixed"][i % 4]
         jobs.append({"id": i, "calls": variant_calls(variant, bs, obs)})
         raw.append((bs, obs, variant))
